@@ -652,3 +652,115 @@ Section Lists.
     unfold prepare_attr_value. destruct v; try exact B. apply T_ret. auto.
   Qed.
 End Lists.
+
+(* ------------------------------------------------------------------ *)
+(** * mutate_attr in place, assignment *)
+Section Store.
+  Variable ct : ctable.
+  Hypothesis Hflat : flat_table ct.
+  Hypothesis Hninv : no_inval_table ct.
+  Variable rec : call -> M val.
+  Notation Inv := (Inv ct).
+
+  Lemma filter_inv_nil (l : list attr_spec) x :
+    (forall sp, In sp l -> a_inv_by sp = []) ->
+    filter (fun sp => existsb (fun y => (y =? x) || (y =? WILDCARD)) (a_inv_by sp)) l = [].
+  Proof.
+    induction l as [|sp t IH]; intro H; simpl; auto.
+    rewrite (H sp) by (simpl; auto). simpl. apply IH. intros; apply H; simpl; auto.
+  Qed.
+
+  Lemma lookup_cls_In c k : lookup_cls ct c = Some k -> In k ct.
+  Proof. unfold lookup_cls. intro H. apply find_some in H. tauto. Qed.
+
+  (* no attribute is invalidated by another: invalidate_attrs does nothing *)
+  Lemma invalidate_noop (P E : heap_t -> Prop) l a :
+    (forall h, P h -> E h) -> T P (invalidate_attrs ct rec l a) (fun _ h => P h) E.
+  Proof.
+    intro HE. unfold invalidate_attrs.
+    eapply T_bind; [apply T_hpure; [unfold read_inst; hpgo|exact HE]|]. intros p.
+    eapply T_bind; [apply T_cls_of; exact HE|]. intros k. apply T_pull. intro Hk. cbv zeta.
+    assert (D : forall x, dependants k x = []).
+    { intro x. unfold dependants. rewrite filter_inv_nil; auto.
+      intros sp Hsp. eapply Hninv; eauto. now apply lookup_cls_In with (c := fst p). }
+    assert (C : inv_closure (S (S (length (c_attrs k)))) k [a] [a] = [a]).
+    { simpl. rewrite D. simpl. destruct (length (c_attrs k)); reflexivity. }
+    rewrite C. apply T_iterM. intros sp _.
+    assert (B : existsb (fun z => z =? a_name sp) [a] && negb (a_name sp =? a) = false).
+    { simpl. rewrite orb_false_r. destruct (Nat.eqb_spec a (a_name sp)) as [->|Ne]; simpl; auto.
+      now rewrite Nat.eqb_refl. }
+    rewrite B. apply T_ret. auto.
+  Qed.
+
+  Lemma T_thawed_false {A} (P : heap_t -> Prop) l (m : M A) (Q : A -> heap_t -> Prop) (E : heap_t -> Prop) :
+    (forall h, P h -> E h) -> T P m Q E -> T P (thawed ct l false m) Q E.
+  Proof.
+    intros HE Hm. unfold thawed.
+    eapply T_bind; [apply T_hpure; [apply hpure_read|exact HE]|]. intros o.
+    destruct o; auto.
+    eapply T_bind; [apply T_hpure; [unfold cls_of; hpgo|exact HE]|]. intros k.
+    cbn [negb orb]. exact Hm.
+  Qed.
+
+  (* the value may be stored in attribute a of l: nobody references it, or a holds it already *)
+  Definition storable (l : loc) (a : aid) (v : val) (h : heap_t) : Prop :=
+    loose h v \/ exists cl d, nth_error h l = Some (OInst cl d) /\ assoc a d = Some v.
+
+  Definition conforms_at (l : loc) (a : aid) (v : val) (h : heap_t) : Prop :=
+    forall cl d k sp, nth_error h l = Some (OInst cl d) -> lookup_cls ct cl = Some k ->
+      lookup_attr k a = Some sp -> check_type FUEL ct h v (a_ty sp) = true.
+
+  Lemma raw_setattr_Inv l a v :
+    T (fun h => Inv h /\ storable l a v h /\ conforms_at l a v h) (raw_setattr l a v)
+      (fun _ h => Inv h) Inv.
+  Proof.
+    unfold raw_setattr.
+    eapply T_bind; [apply T_read_inst; tauto|]. intros [cl d]. cbn [fst snd].
+    apply T_write. intros h [[I [St Cf]] N].
+    split; [apply nth_error_Some; congruence|].
+    destruct St as [L|(cl' & d' & N' & As)].
+    - apply Inv_store; auto. intros k sp Hk Ha. eapply Cf; eauto.
+    - rewrite N in N'. inversion N'; subst cl' d'.
+      rewrite (Inv_restore ct h l cl d a v I N As). exact I.
+  Qed.
+
+  (* mutate_attr(..., inplace=True) *)
+  Theorem mutate_attr_inplace l a v tc :
+    T (fun h => Inv h /\ storable l a v h /\ (tc = false -> conforms_at l a v h))
+      (mutate_attr ct rec l a v true tc false false) (fun _ h => Inv h) Inv.
+  Proof.
+    unfold mutate_attr. destruct (is_sentinel v); [apply T_ret; tauto|].
+    set (P := fun h => Inv h /\ storable l a v h /\ (tc = false -> conforms_at l a v h)).
+    assert (PE : forall h, P h -> Inv h) by (unfold P; tauto).
+    eapply T_bind; [apply T_read_inst; exact PE|]. intros [cl d]. cbn [fst snd].
+    eapply T_bind; [apply T_cls_of|]. { intros h [H _]. auto. }
+    intros k.
+    eapply T_bind; [apply T_guard|]. { intros h [[H _] _]. auto. }
+    intros ?.
+    eapply T_bind with (Q := fun _ h => Inv h /\ storable l a v h /\ conforms_at l a v h).
+    { eapply T_pre with (P := fun h => (P h /\ nth_error h l = Some (OInst cl d)) /\ lookup_cls ct cl = Some k);
+        [auto|].
+      apply T_pull. intro Hk.
+      destruct (lookup_attr k a) as [sp|] eqn:Ha.
+      - destruct tc.
+        + eapply T_bind; [apply T_check|]. intros ok. destruct ok; [|apply T_fail; intros h [[H _] _]; auto].
+          apply T_ret. intros h [[[I [St _]] N] C]. split; auto. split; auto.
+          intros cl' d' k' sp' N' Hk' Ha'. rewrite N in N'. inversion N'; subst cl' d'.
+          rewrite Hk in Hk'. inversion Hk'; subst k'. rewrite Ha in Ha'. inversion Ha'; subst sp'. auto.
+        + apply T_ret. intros h [[I [St Cf]] N]. auto.
+      - apply T_ret. intros h [[I [St _]] N]. split; auto. split; auto.
+        intros cl' d' k' sp' N' Hk' Ha'. rewrite N in N'. inversion N'; subst cl' d'.
+        rewrite Hk in Hk'. inversion Hk'; subst k'. rewrite Ha in Ha'. discriminate. }
+    intros ?. cbv zeta. cbn [orb negb andb].
+    eapply T_bind with (Q := fun l' h => (Inv h /\ storable l a v h /\ conforms_at l a v h) /\ l' = l).
+    { apply T_ret. auto. }
+    intros l'. apply T_pull. intros ->.
+    eapply T_bind with (Q := fun v' h => (Inv h /\ storable l a v h /\ conforms_at l a v h) /\ v' = v).
+    { apply T_ret. auto. }
+    intros v'. apply T_pull. intros ->.
+    eapply T_bind with (Q := fun _ h => Inv h); [|intros ?; apply T_ret; auto].
+    apply T_thawed_false; [tauto|].
+    eapply T_bind; [apply raw_setattr_Inv|]. intros ?.
+    apply invalidate_noop. auto.
+  Qed.
+End Store.
